@@ -7,4 +7,4 @@ From BM Require Import Extract.Driver Extract.DriverAlloc Extract.DriverTables.
 Extraction Language OCaml.
 Extraction "Model.ml" Driver.model Driver.monitor_c01 Driver.monitor_c02 Driver.monitor_c03 Driver.monitor_c07
   Driver.monitor_c11 Driver.monitor_c14 Driver.monitor_c14_verdict Driver.xobs_eqb Driver.mkCase
-  DriverTables.xmodel DriverTables.xmonitors DriverTables.cmodel DriverTables.cmonitor DriverTables.cmonotone DriverAlloc.zlist_eqb DriverAlloc.mkAcase.
+  DriverTables.xmodel2 DriverTables.xmonitors2 DriverTables.cmodel DriverTables.cmonitor DriverTables.cmonotone DriverAlloc.zlist_eqb DriverAlloc.mkAcase.
